@@ -138,7 +138,14 @@ def run_case(rep, drv, rng, th):
 		if int(s[t + 1]) != r:
 			bad.append('reorder_points[%d]=%s but the matrix gives %s' % (t + 1, s[t + 1], r))
 		if desc['K'][t] == 0 and not diffs and int(s[t + 1]) != int(S[t + 1]):
-			bad.append('K=0 but reorder point %s != order-up-to level %s (t=%d)' % (s[t + 1], S[t + 1], t + 1))
+			# with K = 0 every state at or below S orders up to S (K_zero_base_stock) - unless two levels tie: in binary64 the tie can be
+			# broken differently for different states. Accept iff ordering up to S is (numerically) as good as what the matrix does.
+			iS = int(S[t + 1]) - x_min
+			tie = all(abs((desc['c'][t] * (iS - i) + Hm[iS]) - mc[i]) <= 1e-9 * max(1, abs(mc[i])) for i in range(0, iS + 1))
+			if tie:
+				rep.count('fh:K=0-tie-between-order-up-to-levels')
+			else:
+				bad.append('K=0 but reorder point %s != order-up-to level %s (t=%d)' % (s[t + 1], S[t + 1], t + 1))
 	if abs(float(total) - float(cm[1][int(desc['x0']) - x_min])) > 1e-9:
 		bad.append('total_cost is not cost_matrix[1][x0]')
 	if mo['hitsTop']:
